@@ -154,17 +154,36 @@ def lookup_key(frame, in_port):
     k["nw_src"], k["nw_dst"] = struct.unpack_from("!LL", frame, off + 12)
     is_frag = bool(fo & 0x2000) or bool(fo & 0x1fff)
     l4 = off + ihl
+    iplen = (frame[off + 2] << 8) | frame[off + 3]
+    end = min(len(frame), off + iplen) if iplen >= ihl else len(frame)
+    have = max(0, end - l4)          # bytes of the transport layer present
     if not is_frag:
-      if k["nw_proto"] in (6, 17) and len(frame) >= l4 + 4:
-        k["tp_src"], k["tp_dst"] = struct.unpack_from("!HH", frame, l4)
-      elif k["nw_proto"] == 1 and len(frame) >= l4 + 2:
-        k["tp_src"], k["tp_dst"] = frame[l4], frame[l4 + 1]
+      # a datagram whose transport header is not all there has no ports:
+      # the fields are absent (None), which equals no required value
+      if k["nw_proto"] == 6:
+        if have >= 20:
+          k["tp_src"], k["tp_dst"] = struct.unpack_from("!HH", frame, l4)
+        else:
+          k["tp_src"] = k["tp_dst"] = None
+      elif k["nw_proto"] == 17:
+        if have >= 8 and struct.unpack_from("!H", frame, l4 + 4)[0] <= have:
+          k["tp_src"], k["tp_dst"] = struct.unpack_from("!HH", frame, l4)
+        else:
+          k["tp_src"] = k["tp_dst"] = None
+      elif k["nw_proto"] == 1:
+        if have >= 4:
+          k["tp_src"], k["tp_dst"] = frame[l4], frame[l4 + 1]
+        else:
+          k["tp_src"] = k["tp_dst"] = None
   elif h["ethertype"] == ETH_ARP and len(frame) >= off + 28:
     op = (frame[off + 6] << 8) | frame[off + 7]
     if op <= 255:
       k["nw_proto"] = op
       k["nw_src"] = struct.unpack_from("!L", frame, off + 14)[0]
       k["nw_dst"] = struct.unpack_from("!L", frame, off + 24)[0]
+    else:
+      # an opcode that does not fit nw_proto: no ARP fields at all
+      k["nw_proto"] = k["nw_src"] = k["nw_dst"] = None
   return k
 
 
@@ -195,6 +214,10 @@ def key_matches(canon, key):
     if v is not None:
       addr, plen = v
       mask = (0xffffffff << (32 - plen)) & 0xffffffff if plen else 0
+      if key[f] is None:
+        if mask:
+          return False
+        continue
       if (key[f] & mask) != (addr & mask):
         return False
   return True
